@@ -46,7 +46,7 @@ fn history() -> impl Strategy<Value = SignHistory> {
     (seed32(), prop_oneof![3 => proptest::collection::vec(chunks(), 1..=4), 1 => proptest::collection::vec(chunks(), 5..=32)]).prop_map(|(seed, msgs)| SignHistory { seed, msgs })
 }
 
-fn check_history(ctx: &mut Ctx, c: &SignHistory) -> Res {
+pub fn check_history(ctx: &mut Ctx, c: &SignHistory) -> Res {
     let seed: [u8; 32] = match c.seed.0.as_slice().try_into() {
         Ok(s) => s,
         Err(_) => return Ok(()),
@@ -112,7 +112,7 @@ pub struct VerifyCase {
     pub corrupt: Corrupt,
 }
 
-fn check_verify(ctx: &mut Ctx, c: &VerifyCase) -> Res {
+pub fn check_verify(ctx: &mut Ctx, c: &VerifyCase) -> Res {
     ctx.eval();
     let seed: [u8; 32] = match c.seed.0.as_slice().try_into() {
         Ok(s) => s,
